@@ -46,7 +46,8 @@ class Table(dict):
         return KLONG_UNDEFINED if v is None else v.values
 
     def set(self, x, y):
-        self._df[x] = y
+        # flush buffered inserts first: the new column belongs to all rows inserted so far
+        self.get_dataframe()[x] = y
         self.columns = list(self._df.columns)
 
     def schema(self):
